@@ -47,13 +47,13 @@ def check_route_after(ctx, impl, case, cfg_hops):
             ctx.violation("request-altered:route", case, "route %s != configured route %s (after get_module_info of another slot)" % (route, want.hex()))
 
 
-def run_route_after(ctx, model, lines, pend, focus, paths):
+def run_route_after(ctx, model, lines, pend, focus, paths, auto=False, extra=True):
     """the configured route survives other calls: module info of another slot (which builds its own route from the
     configured one), then messages over the configured route"""
     rng = ctx.rng
     # also a driver without route and one whose route ends at a network hop (the module route is built from the configured
     # one: nothing of it may stay behind in the configuration)
-    paths = list(paths) + [("10.0.0.1/bp/1/enet/10.11.12.13", [(1, 1), (2, "10.11.12.13")])]
+    paths = list(paths) + ([("10.0.0.1/bp/1/enet/10.11.12.13", [(1, 1), (2, "10.11.12.13")])] if extra else [])
     for path, hops in paths:
         for slot in (0, 1, 5):
             a = {"service": 0x0E, "class_code": 0x70, "instance": 2, "attribute": 1, "request_data": b"\x01\x02\x03", "name": "g",
@@ -61,7 +61,7 @@ def run_route_after(ctx, model, lines, pend, focus, paths):
             generic = (0, (), b"\x10\x20")
             scn, _, _ = tr.gen_base(rng, policy=(True, True, True), generic=generic)
             ctx.count("mode/ucs-after-module-info")
-            tr.run_case(ctx, model, lines, pend, "route-after-module-info", focus, scn, path, False, {}, [b"\x88" * 8],
+            tr.run_case(ctx, model, lines, pend, "route-after-module-info", focus, scn, path, auto, {}, [b"\x88" * 8],
                         [("open",), ("modinfo", slot), ("gm", a), ("gm", dict(a, connected=True, unconnected_send=False))],
                         check=lambda impl, case, hops=hops: check_route_after(ctx, impl, case, hops))
 
